@@ -137,12 +137,13 @@ def rule_prov(ctx):
                 why = f'per-bucket slice bound {norm(bound)} must be a constant <= 2'
             elif onion_var and src == onion_var[0]:
                 bd = d.get(norm(bound), []) if isinstance(bound, ast.Name) else []
-                okk = len(bd) == 1 and isinstance(bd[0][1], ast.IfExp) and const_value(bd[0][1].body) is not None and \
-                    isinstance(bd[0][1].orelse, ast.Call) and norm(bd[0][1].orelse.func) == 'max'
+                bexpr = bd[0][1] if len(bd) == 1 else (bound if not isinstance(bound, ast.Name) else None)
+                okk = isinstance(bexpr, ast.IfExp) and const_value(bexpr.body) is not None and \
+                    isinstance(bexpr.orelse, ast.Call) and norm(bexpr.orelse.func) == 'max'
                 if okk:
-                    mx = bd[0][1].orelse
+                    mx = bexpr.orelse
                     consts = [const_value(a) for a in mx.args if const_value(a) is not None]
-                    okk = len(consts) == 1 and isinstance(const_value(bd[0][1].body), int)
+                    okk = len(consts) == 1 and isinstance(const_value(bexpr.body), int)
                     # the variable share is a share of what was already selected (own identities + <= 2 per clearnet bucket),
                     # never of a list whose size the onion peers themselves determine
                     for a in mx.args:
